@@ -3,6 +3,7 @@ import StoneVerif.Lemmas.FeCompileClosed
 import StoneVerif.Lemmas.FeCompileFaithful
 import StoneVerif.Lemmas.FeCompileAcyclic
 import StoneVerif.Lemmas.FeCompileOrder
+import StoneVerif.Lemmas.FeCompileFuel
 /-!
 # C02 for the compile model: the Api is the image of the declarations
 
@@ -57,6 +58,17 @@ theorem compile_order_independent_partial (rx : String → Bool) (fs fs' : List 
     api.type? k = api'.type? k ∧ api.alias? k = api'.alias? k :=
   L.compile_order_independent h h' hs k
 
+/-- **The fuel of the depth-first population suffices.** `populate` models the on-demand population of parents
+(`_resolve_type(.., enforce_fully_defined=True)` with `_resolution_in_progress`) by recursion on explicit fuel. With
+fuel = number of type declarations + 1 -- what every pass uses -- it never answers `outOfFuel`: each recursive call
+moves a registered type that is not in progress into the in-progress set. (`outOfFuel` is raised nowhere else; the
+walks along alias chains, ancestors and imports have their own bounds `fuelAlias` / `fuelAncestors` / `fuelImports`,
+for which nothing is proved: the correspondence suite counts a model answer of that kind as a disagreement.) -/
+theorem populate_fuel_sufficient (rx : String → Bool) (fs : List File) (E : Env) (h : buildEnv fs = .ok E)
+    (st : St) (key : Key) (d : TypeDecl) :
+    populate rx E (populateFuel E) [key] st key d ≠ .error .outOfFuel :=
+  L.populate_fuel_sufficient (L.buildEnv_ok h) st key d
+
 /-- the built-in names the environment starts with are the classes of `IRGenerator.data_types` -/
 theorem builtin_names_table : Tables.feBuiltinTypes = FeParams.TyKind.all.map (·.pyName) := by decide
 
@@ -106,6 +118,8 @@ example : (compile (fun _ => true) sample).toOption.map (fun api =>
 example : ((compile (fun _ => true) sample.reverse).toOption.bind (·.type? ("na", "S"))).isSome = true ∧
     (compile (fun _ => true) sample.reverse).toOption.bind (·.type? ("na", "S")) =
       (compile (fun _ => true) sample).toOption.bind (·.type? ("na", "S")) := by decide +kernel
+
+example : (buildEnv sample).toOption.map populateFuel = some 5 := by decide +kernel
 
 def errOf {α} : Except Err α → Option Err
   | .error e => some e
